@@ -151,6 +151,17 @@ def main():
                     fail = {'args': ['-r', 'Default', '-n', str(n)], 'stdin': mode, 'lines_written': len(got), 'expected_lines': n,
                             'got_head': got[:3]}
                     break
+            if fail is None:
+                # a long run whose stdin delivers status/help requests and then ends: the end of input is not a quit request
+                # (long enough for the keyboard thread to reach the end of its input while guesses are still being generated)
+                n2 = 60000
+                long_ref = lines_of(run(d, ['-r', 'Default', '-n', str(n2)]))
+                got = lines_of(run(d, ['-r', 'Default', '-n', str(n2)], stdin_mode='status_requests'))
+                cases += 1
+                samples.append({'stdin': 'status requests, then end of input; long run', 'lines': len(got)})
+                if got != long_ref or len(long_ref) != n2:
+                    fail = {'args': ['-r', 'Default', '-n', str(n2)], 'stdin': "b'\\n\\nh\\n\\n' then end of input", 'lines_written': len(got),
+                            'expected_lines': n2, 'reference_lines': len(long_ref)}
     except Exception as ex:
         import traceback
         fail = {'exception': repr(ex), 'traceback': traceback.format_exc()[-1200:]}
